@@ -127,8 +127,26 @@ fn run_script(script: &Script, root: &std::path::Path, verbose: bool, stats: &mu
 
 /// Root-cause signature: the effect plus the recorded-finding triggers the script contains (if
 /// any), otherwise the detail of the effect.
+static OPEN_TAGS: std::sync::OnceLock<BTreeSet<String>> = std::sync::OnceLock::new();
+
+/// The generator switches that belong to a finding that is still open (a switch of a repaired
+/// finding no longer names anything).
+fn open_tags(report: &Report) -> BTreeSet<String> {
+    ALL_TAGS
+        .iter()
+        .filter(|tag| {
+            report.known_findings().iter().any(|k| {
+                k.signature.split(':').nth(1).is_some_and(|t| t.split('+').any(|x| x == **tag)) || k.what.contains(&format!("[switch: {tag}]"))
+            })
+        })
+        .map(|t| t.to_string())
+        .collect()
+}
+
 fn sign(fail: Fail, script: &Script) -> Fail {
     let (_, tags) = hist::analyse(script);
+    let open = OPEN_TAGS.get().cloned().unwrap_or_default();
+    let tags: BTreeSet<&'static str> = tags.into_iter().filter(|t| open.contains(*t)).collect();
     // a panic is named by where it is raised, whatever the script contains
     if tags.is_empty() || fail.signature.starts_with("panic:") {
         return fail;
@@ -171,18 +189,9 @@ fn unreadable_plus_valid_edit(k: u8) -> Vec<Op> {
 fn exclusions(report: &Report) -> BTreeSet<String> {
     let include: Vec<String> =
         std::env::var("VERIF_C20_INCLUDE").unwrap_or_default().split(',').map(|s| s.trim().to_string()).collect();
-    let mut ex = BTreeSet::new();
-    for tag in ALL_TAGS {
-        // a finding names the generator switches that keep it out either in its signature
-        // (`effect:tag+tag`) or in its text (`[switch: tag]`)
-        let listed = report.known_findings().iter().any(|k| {
-            k.signature.split(':').nth(1).is_some_and(|t| t.split('+').any(|x| x == tag)) || k.what.contains(&format!("[switch: {tag}]"))
-        });
-        if listed && !include.iter().any(|i| i == tag || i == "all") {
-            ex.insert(tag.to_string());
-        }
-    }
-    ex
+    // a finding names the generator switches that keep it out either in its signature
+    // (`effect:tag+tag`) or in its text (`[switch: tag]`)
+    open_tags(report).into_iter().filter(|tag| !include.iter().any(|i| i == tag || i == "all")).collect()
 }
 
 fn inotify_probe(base: &std::path::Path) -> Result<(), String> {
@@ -280,6 +289,7 @@ fn main() {
     );
     report.assumption("events of a window are handed to update_sources as one batch after all actions of the window were applied");
     let verbose = std::env::var("VERIF_VERBOSE").is_ok();
+    let _ = OPEN_TAGS.set(open_tags(&report));
     if args.rest.iter().any(|a| a == "--print-initial") {
         let init: Vec<Value> = watch::project::initial_files().into_iter().map(|(p, t)| json!([p, t])).collect();
         println!("{}", serde_json::to_string(&init).unwrap());
@@ -353,6 +363,17 @@ fn main() {
         let script = Script::from_json(input).map_err(|e| Fail::new("bad-regression-input", e))?;
         let mut st = CaseStats::default();
         let mut retries = 0;
+        if input["leg"] == "process" {
+            let mut ps = ProcessStats::default();
+            return match run_under_cli(&script, &worker_root(&base), &cli_or_inconclusive(), &strays(), false, &mut ps) {
+                Ok(()) => Ok(()),
+                Err(Stop::Fail(f)) => Err(sign_process(f, &script)),
+                Err(Stop::Inconclusive(w)) => {
+                    report.label(&format!("inconclusive-regression:{w}"));
+                    Ok(())
+                }
+            };
+        }
         match run_script(&script, &worker_root(&base), false, &mut st, &mut retries) {
             Ok(()) => Ok(()),
             Err(Stop::Fail(f)) => Err(sign(f, &script)),
@@ -496,7 +517,21 @@ fn main() {
             },
         );
         if let Some((a, fail)) = found {
-            let mut j = build(&a).to_json();
+            // proptest gets only a few shrink steps here; try the last window on its own
+            let mut script = build(&a);
+            let mut fail = fail;
+            if script.windows.len() > 1 {
+                let alone = Script { initial: script.initial.clone(), windows: vec![script.windows.last().unwrap().clone()] };
+                let mut ps = ProcessStats::default();
+                if let Err(Stop::Fail(f)) = run_under_cli(&alone, &worker_root(&base), &cli, &stray, false, &mut ps) {
+                    let f = sign_process(f, &alone);
+                    if f.signature == fail.signature {
+                        script = alone;
+                        fail = f;
+                    }
+                }
+            }
+            let mut j = script.to_json();
             j["leg"] = json!("process");
             report.violation("process-histories", &fail, j);
         }
